@@ -608,6 +608,33 @@ def o6(rep):
             rep.violation("O6", key, "emit.c:%d (%s)" % (fn["l"], fname), msg, detail={"cfg_path": esc[:10]})
 
 
+O9_WRITERS = ("emitOneJavaFile", "emitTheAbSyn", "emitTheAnnotatedAbSyn", "emitTheFoamExpr", "emitTheIncluded", "emitTheLisp",
+              "emitTheOldAbSyn", "emitTheSymbolExpr")
+
+
+def o9(rep):
+    """A run that exits 0 has written each requested output itself: the writers of emit.c open the file, produce the text and
+    close it through fileCloseOut (which reports a failed write) on every path.  A writer that leaves the file alone when it
+    `already holds the text` makes the outcome depend on what an earlier -- possibly failed -- run left under that name: a file
+    cut short by a full device is a prefix of the text, and is then kept with exit status 0.  For the writers listed (confirmed
+    on today's tree) every path from entry to exit passes fileCloseOut."""
+    f = common.extract("emit.c", all_trees=True, all_cfg=True)
+    present = [n for n in O9_WRITERS if n in f.funcs and "body" in f.funcs[n]]
+    rep.floor("single-file writers of emit.c", len(present), 7)
+    for name in present:
+        cfg = common.CFG(f.funcs[name])
+        is_close = lambda e: e["k"] == "CallExpr" and e.get("callee") == "fileCloseOut"
+        p = cfg.path_avoiding(cfg.entry, None, is_close) if cfg.events(is_close) else [cfg.entry]
+        key = "output-always-written:%s" % name
+        if p is None:
+            rep.ok("O9", key)
+        else:
+            rep.violation("O9", key, "emit.c:%d (%s)" % (f.funcs[name]["l"], name),
+                          "%s can return without writing and closing its output: whatever an earlier run left under the name is "
+                          "kept -- after a run that failed while writing (device full, file-size limit, killed) that is a "
+                          "truncated file, and the re-run exits 0 with it" % name, detail={"cfg_path": p[:10]})
+
+
 def o8(rep):
     """The last step of an output written under a temporary name is the move to the requested name (emitFileRename ->
     fileRename -> osFileRename = rename(2)).  A failed move (the requested name is a directory, a read-only directory, ...)
@@ -734,6 +761,7 @@ def run(tier, only=None):
     o5(rep)
     o6(rep)
     o8(rep)
+    o9(rep)
     from . import staticbuf
     staticbuf.report(rep, "O7")        # file names handed to rename/remove/open are distinct strings
     return rep
